@@ -42,17 +42,22 @@ Lemma prefix_match_refuted :
   ctr_match [mk_m ["n";"o"]%byte OpEq []] (mk_ctr ["a"%byte]) = true.
 Proof. vm_compute. repeat split. Qed.
 
-(** * The window the daemon is asked for: the engine's window truncated to whole seconds *)
-Lemma window_truncated_lemma s e : 0 <= s -> 0 <= e ->
-  log_opts s e = (dec (s / 1000000000), dec (e / 1000000000)) /\
+(** * The window the daemon is asked for: whole seconds, covering the engine's window, less than a second wider on either side *)
+Lemma window_covers_lemma s e : 0 <= s -> 0 <= e ->
+  log_opts s e = (dec (s / 1000000000), dec (ceil_sec e)) /\
   (s / 1000000000) * 1000000000 <= s < (s / 1000000000 + 1) * 1000000000 /\
-  (e / 1000000000) * 1000000000 <= e < (e / 1000000000 + 1) * 1000000000.
+  (ceil_sec e - 1) * 1000000000 < e <= ceil_sec e * 1000000000.
 Proof.
-  intros Hs He. split; [reflexivity|].
+  intros Hs He. split; [reflexivity|]. unfold ceil_sec.
   pose proof (Z.div_mod s 1000000000 ltac:(lia)). pose proof (Z.mod_pos_bound s 1000000000 ltac:(lia)).
-  pose proof (Z.div_mod e 1000000000 ltac:(lia)). pose proof (Z.mod_pos_bound e 1000000000 ltac:(lia)).
+  pose proof (Z.div_mod (e + 999999999) 1000000000 ltac:(lia)). pose proof (Z.mod_pos_bound (e + 999999999) 1000000000 ltac:(lia)).
   lia.
 Qed.
+
+(** rounding the end down asks for a narrower window whenever the end is not on a whole second (D35) *)
+Lemma floor_until_refuted_lemma : exists s e, 0 <= s /\ 0 <= e /\
+  log_opts_floor s e = (dec (s / 1000000000), dec (e / 1000000000)) /\ (e / 1000000000) * 1000000000 < e.
+Proof. exists 0, 1500000000. repeat split; try lia; reflexivity. Qed.
 
 (** * Origin: the record built from element (i, r) carries the labels of container i *)
 Lemma record_origin_lemma ctrs i r c : nth_error ctrs i = Some c ->
